@@ -35,7 +35,7 @@ def _case_seq3(d, with_iter=True):
     dx, dy, dz = d
     tot = dx * dy * dz
     D = "%d %d %d" % d
-    c = ["tot3 " + D, "lp " + D, "it3 " + D, "fes " + D]
+    c = ["tot3 " + D, "lp " + D, "it3 " + D, "itb3 " + D, "fes " + D]
     for i in range(tot):
         c.append("rs3 %s %d" % (D, i))
         c.append("co %d %s" % (i, D))
@@ -57,7 +57,7 @@ def _case_seq2(d):
     dx, dy = d
     tot = dx * dy
     D = "%d %d" % d
-    c = ["tot2 " + D, "it2 " + D]
+    c = ["tot2 " + D, "it2 " + D, "itb2 " + D]
     for i in range(tot):
         c.append("rs2 %s %d" % (D, i))
     for y in range(dy):
